@@ -3,6 +3,11 @@
 package commit
 
 import (
+	cctypes2 "github.com/smartcontractkit/chainlink-common/pkg/types"
+	"github.com/smartcontractkit/chainlink-common/pkg/types/query/primitives"
+	"fmt"
+	"strings"
+	"time"
 	"context"
 	"testing"
 
@@ -31,6 +36,49 @@ func vC16Digest(b byte) types.ConfigDigest {
 }
 
 // fresh plugin instance: fresh oracle map => fresh Go map iteration seed
+// the candidate check goes through the REAL home-chain poller's GetOCRConfigs (read identifier, confidence level and
+// parameters as the code builds them) over a scripted contract reader that answers from the fake's tables
+type vC16CR struct {
+	cctypes2.UnimplementedContractReader
+	hc *vHomeChain
+}
+
+func (c *vC16CR) GetLatestValue(ctx context.Context, id string, conf primitives.ConfidenceLevel, params, ret any) error {
+	if !strings.HasSuffix(id, consts.MethodNameGetOCRConfig) {
+		return fmt.Errorf("verif: unexpected read %q", id)
+	}
+	pm, ok := params.(map[string]any)
+	if !ok {
+		return fmt.Errorf("verif: unexpected params %T", params)
+	}
+	don, ok1 := pm["donId"].(uint32)
+	pt, ok2 := pm["pluginType"].(uint8)
+	out, ok3 := ret.(*reader.ActiveAndCandidate)
+	if !ok1 || !ok2 || !ok3 {
+		return fmt.Errorf("verif: unexpected params %v / return %T", pm, ret)
+	}
+	v, err := c.hc.GetOCRConfigs(ctx, don, pt)
+	if err != nil {
+		return err
+	}
+	*out = v
+	return nil
+}
+
+type vC16HC struct {
+	*vHomeChain
+	real reader.HomeChain
+}
+
+func (h *vC16HC) GetOCRConfigs(ctx context.Context, donID uint32, pluginType uint8) (reader.ActiveAndCandidate, error) {
+	return h.real.GetOCRConfigs(ctx, donID, pluginType)
+}
+
+func vC16Wrap(hc *vHomeChain) *vC16HC {
+	return &vC16HC{vHomeChain: hc, real: reader.NewHomeChainConfigPoller(&vC16CR{hc: hc}, mocks.NullLogger, time.Hour,
+		cctypes2.BoundContract{Address: "0xCC", Name: consts.ContractNameCCIPConfig})}
+}
+
 const vC16Don = 7
 
 func vC16Plugin(ids []commontypes.OracleID, writers map[commontypes.OracleID]bool, cfgErr bool,
@@ -78,7 +126,7 @@ func vC16Plugin(ids []commontypes.OracleID, writers map[commontypes.OracleID]boo
 		ccipReader:      rd,
 		reportCodec:     mocks.NewCommitPluginJSONReportCodec(),
 		lggr:            mocks.NullLogger,
-		homeChain:       hc,
+		homeChain:       vC16Wrap(hc),
 		reportingCfg:    ocr3types.ReportingPluginConfig{ConfigDigest: vC16Digest(my), OracleID: me},
 		chainSupport:    plugincommon.NewChainSupport(mocks.NullLogger, hc, m, me, vC16Dest),
 	}
@@ -255,7 +303,7 @@ func TestVerif_C16_commit_gates(t *testing.T) {
 				if st > 0 {
 					cand = byte(r.Range(0, 2))
 					ocrErr = r.Chance(1, 8)
-					hc := p.homeChain.(*vHomeChain)
+					hc := p.homeChain.(*vC16HC).vHomeChain
 					hc.OCRErr = ocrErr
 					hc.OCR.CandidateConfig.ConfigDigest = vC16Digest(cand)
 				}
